@@ -399,6 +399,62 @@ def aoi(ctx):
     res = Result('AOI', 'angle of incidence = arccos |n . d_before|, from the '
                  'pre-surface direction, passed to the Jones calculation with '
                  'the matching reflect flag; rays updated with that matrix')
+    # the pre-surface direction is a snapshot taken before the ray is bent:
+    # reflect() updates L, M, N in place, an alias would follow it
+    for mn in ('refract', 'reflect'):
+        g = P.func('RealRays.' + mn)
+        res.saw(g)
+        want_src = {'L0': 'self.L', 'M0': 'self.M', 'N0': 'self.N'}
+        seen_ = {}
+        first_write = None
+        for st in g.node.body:
+            for x in ast.walk(st):
+                if isinstance(x, (ast.Assign, ast.AugAssign)):
+                    tgs = x.targets if isinstance(x, ast.Assign) else [x.target]
+                    for tg in tgs:
+                        els = tg.elts if isinstance(tg, ast.Tuple) else [tg]
+                        vals = x.value.elts if isinstance(tg, ast.Tuple) and \
+                            isinstance(x.value, ast.Tuple) else [x.value] * len(els)
+                        for t_, v_ in zip(els, vals):
+                            u_ = unparse(t_)
+                            if u_ in ('self.L0', 'self.M0', 'self.N0'):
+                                seen_[u_[5:]] = (v_, x.lineno)
+                            elif u_ in ('self.L', 'self.M', 'self.N') and \
+                                    first_write is None:
+                                first_write = x.lineno
+        inplace = any(
+            (isinstance(x, ast.AugAssign) and unparse(x.target) in
+             ('self.L', 'self.M', 'self.N')) or
+            (isinstance(x, ast.Subscript) and isinstance(x.ctx, ast.Store) and
+             unparse(x.value) in ('self.L', 'self.M', 'self.N'))
+            for x in ast.walk(g.node))
+        bad = None
+        for k, src_ in want_src.items():
+            if k not in seen_:
+                bad = f'{k} is not stored'
+                break
+            v_, ln = seen_[k]
+            fresh = isinstance(v_, ast.Call) and (
+                (isinstance(v_.func, ast.Attribute) and v_.func.attr == 'copy'
+                 and unparse(v_.func.value) == src_) or
+                (unparse(v_.func) in ('np.copy', 'np.array') and v_.args and
+                 unparse(v_.args[0]) == src_))
+            if not fresh and not (inplace is False and
+                                  unparse(v_) == src_):
+                bad = (f'{k} := {unparse(v_)} is not a copy of {src_}: the '
+                       f'in-place update of the direction in reflect() makes '
+                       f'the "pre-surface" direction equal the new one')
+                break
+            if first_write is not None and ln > first_write:
+                bad = f'{k} is stored after the direction was changed'
+                break
+        if bad:
+            res.fail(ctx.finding('AOI', g, g.node,
+                                 f'RealRays.{mn}: {bad}',
+                                 construct=f'{mn} pre-surface direction'))
+        else:
+            res.ok(f'RealRays.{mn}: L0, M0, N0 are copies taken before the '
+                   f'direction changes')
     f = P.func('BaseCoating._compute_aoi')
     res.saw(f)
     sym = Sym()
